@@ -49,6 +49,8 @@ class MThread(object):
         self.wait_desc = None
         self.exc = None
         self.real = None
+        self.timer_credit = 0
+        self.sleeping = False
 
     def enabled(self):
         if self.done:
@@ -235,14 +237,27 @@ class Scheduler(object):
 
     # ---------------------------------------------------------------- timers
     def timer_wait(self, desc="sleep"):
-        """time.sleep replacement for library threads: enabled only by an explicit tick()."""
+        """time.sleep replacement for library threads: a sleeping thread wakes only when an explicit tick() lets
+        time pass.  A tick wakes EVERY thread that is sleeping at that moment (time passes for all of them)."""
+        t = self.me()
+        if t is None:
+            return
+        t.timer_credit = 0
+        t.sleeping = True
+
         def pred():
-            return self.timer_grants > 0
-        self.wait_until(pred, "timer:" + desc)
-        self.timer_grants -= 1
+            return t.timer_credit > 0
+        try:
+            self.wait_until(pred, "timer:" + desc)
+        finally:
+            t.sleeping = False
+        t.timer_credit -= 1
 
     def tick(self, n=1):
         self.timer_grants += n
+        for t in self.threads:
+            if getattr(t, "sleeping", False) and not t.done:
+                t.timer_credit += n
 
     # ---------------------------------------------------------------- phases
     def run_phase(self, fns, timeout=600.0):
